@@ -10,88 +10,6 @@ import (
 	"verif/engine/core"
 )
 
-// reviewed is a discharge rule with ONE instance: a panic-capable operation whose safety needs a relational argument
-// the structural rules do not make.  The entry names the construct, gives the argument, and lists the branch decisions
-// the argument relies on; the checker re-verifies those on every run, so deleting or changing a guard re-opens the
-// obligation.
-type reviewed struct {
-	fn, expr string
-	facts    []struct {
-		expr  string
-		truth bool
-	}
-	mustContain []string // statements (as printed expressions) that must exist in the function
-	argument    string
-}
-
-var reviewedOps = []reviewed{
-	{fn: "protocols/bgp/packet.deserializeMultiProtocolReachNLRI", expr: "variable[:firstNextHopLength]",
-		facts: []struct {
-			expr  string
-			truth bool
-		}{{"budget < int(nextHopLength)", false}},
-		mustContain: []string{"variable := make([]byte, variableLength)", "budget := variableLength", "firstNextHopLength := nextHopLength"},
-		argument:    "len(variable) = variableLength = budget ≥ nextHopLength ≥ firstNextHopLength (the latter is nextHopLength or 16 when nextHopLength is 32)"},
-	{fn: "protocols/bgp/packet.deserializeMultiProtocolReachNLRI", expr: "variable[1 + nextHopLength:]",
-		facts: []struct {
-			expr  string
-			truth bool
-		}{{"budget < int(nextHopLength)", false}, {"budget == 0", false}},
-		mustContain: []string{"variable := make([]byte, variableLength)", "budget := variableLength", "budget -= int(nextHopLength)"},
-		argument:    "len(variable) − nextHopLength = budget after the subtraction, which is ≠ 0 and ≥ 0, so 1 + nextHopLength ≤ len(variable)"},
-}
-
-func stmtStrings(f *core.Fn) map[string]bool {
-	out := map[string]bool{}
-	ast.Inspect(f.Decl.Body, func(n ast.Node) bool {
-		switch s := n.(type) {
-		case *ast.AssignStmt:
-			var l, r []string
-			for _, e := range s.Lhs {
-				l = append(l, core.ExprString(e))
-			}
-			for _, e := range s.Rhs {
-				r = append(r, core.ExprString(e))
-			}
-			out[strings.Join(l, ", ")+" "+s.Tok.String()+" "+strings.Join(r, ", ")] = true
-		}
-		return true
-	})
-	return out
-}
-
-func reviewedDischarge(f *core.Fn, o core.PCO) (bool, string, bool) {
-	e, ok := o.Node.(ast.Expr)
-	if !ok {
-		return false, "", false
-	}
-	for _, r := range reviewedOps {
-		if r.fn != f.Name() || r.expr != core.ExprString(e) {
-			continue
-		}
-		facts := core.CtlFactsAt(f, o.Node)
-		for _, need := range r.facts {
-			found := false
-			for _, ft := range facts {
-				if ft.Expr != nil && core.ExprString(ft.Expr) == need.expr && ft.Truth == need.truth {
-					found = true
-				}
-			}
-			if !found {
-				return false, fmt.Sprintf("the reviewed argument (%s) relies on the branch decision `%s` = %v, which no longer dominates the operation", r.argument, need.expr, need.truth), true
-			}
-		}
-		ss := stmtStrings(f)
-		for _, m := range r.mustContain {
-			if !ss[m] {
-				return false, fmt.Sprintf("the reviewed argument (%s) relies on the statement `%s`, which is gone", r.argument, m), true
-			}
-		}
-		return true, "reviewed: " + r.argument, true
-	}
-	return false, "", false
-}
-
 // genericAssertDischarge: type assertions outside the union tables.
 func genericAssertDischarge(p *core.Prog, f *core.Fn, ta *ast.TypeAssertExpr) (bool, string) {
 	asserted := f.Pkg.TypesInfo.TypeOf(ta.Type)
@@ -236,6 +154,7 @@ func decoderScope(c *core.Ctx, prefix string, roots []*core.Fn, inScope func(*co
 			unionVal[t.valF] = t
 		}
 	}
+	linWhy := map[ast.Node]string{}
 	for _, f := range fns {
 		for _, o := range core.PanicOps(f) {
 			construct := fmt.Sprintf("%s %s #%d %s", f.Name(), o.Kind, o.Ord, exprOfNode(o.Node))
@@ -246,11 +165,16 @@ func decoderScope(c *core.Ctx, prefix string, roots []*core.Fn, inScope func(*co
 					c.Hold(prefix+"no-panic", construct, o.Node.Pos(), why)
 					continue
 				}
-				if ok, why, listed := reviewedDischarge(f, o); listed {
-					c.Check(ok, prefix+"no-panic", construct, o.Node.Pos(), why)
+				if ok, why, as := p.LinearDischarge(f, o.Node); ok {
+					if len(as) > 0 {
+						why += "; assuming: " + strings.Join(as, "; ")
+					}
+					c.Hold(prefix+"no-panic", construct, o.Node.Pos(), why)
 					continue
+				} else if why != "" {
+					linWhy[o.Node] = why
 				}
-				c.Fail(prefix+"no-panic", construct, o.Node.Pos(), "index/slice operation on input-derived data without a dominating bound (constant index into a fixed-size value, loop index bounded by the length, tested length, or a reviewed relational argument): out-of-range input panics, and the daemon has no recover")
+				c.Fail(prefix+"no-panic", construct, o.Node.Pos(), "index/slice operation on input-derived data without a dominating bound (constant index into a fixed-size value, loop index bounded by the length, tested length) and the linear bounds analysis does not prove it either ("+linWhy[o.Node]+"): out-of-range input panics, and the daemon has no recover")
 			case "type-assert":
 				ta := o.Node.(*ast.TypeAssertExpr)
 				if vs, ok := core.Unparen(ta.X).(*ast.SelectorExpr); ok {
